@@ -84,6 +84,54 @@ def f2_cbrt(p, a, rng):
     return None
 
 
+def f_cbrt(p, a, rng):
+    """A cube root of a in Fp or None (input generation only)."""
+    a %= p
+    if a == 0:
+        return 0
+    if (p - 1) % 3:
+        return pow(a, pow(3, -1, p - 1), p)
+    if pow(a, (p - 1) // 3, p) != 1:
+        return None
+    s, t = 0, p - 1
+    while t % 3 == 0:
+        s, t = s + 1, t // 3
+    key = ("fp", p)
+    if key not in _SYLOW3:
+        while True:
+            g = pow(rng.randrange(2, p), t, p)
+            if pow(g, 3 ** (s - 1), p) != 1:
+                break
+        els, cur = [], 1
+        for _ in range(3 ** s):
+            els.append(cur)
+            cur = cur * g % p
+        _SYLOW3[key] = els
+    c0 = pow(a, pow(3, -1, t), p)
+    for d in _SYLOW3[key]:
+        x = c0 * d % p
+        if pow(x, 3, p) == a:
+            return x
+    return None
+
+
+def points_with_y(p, rng, ys, deg, b=None):
+    """Curve points (x, y) of y^2 = x^3 + b with a PRESCRIBED y (x is a cube root of y^2 - b): input generation."""
+    out = []
+    for y in ys:
+        if deg == 1:
+            x = f_cbrt(p, (y[0] * y[0] - (b or (4,))[0]) % p, rng)
+            if x is not None:
+                out.append(((x,), y))
+        else:
+            bb = b or (4, 4)
+            y2 = f2_mul(p, y, y)
+            x = f2_cbrt(p, ((y2[0] - bb[0]) % p, (y2[1] - bb[1]) % p), rng)
+            if x is not None:
+                out.append((x, y))
+    return out
+
+
 def real_y_twist_points(p, rng, count, b2=(4, 4)):
     """Points (x, y) of y^2 = x^3 + b2 over Fp2 whose y is real or purely imaginary (input generation only)."""
     out = []
